@@ -107,7 +107,7 @@ def run(tier):
                "consumer, consumer lagging, asynchronous per-event resolvers): response i == execute_sync(event i) == Spec model; "
                "count/order/termination; recorded pull/source/callback trace accepted by the extracted pipeline machine. "
                "non-trivial = at least 2 events or a failure")
-    nschemas = 90 if quick else 1200
+    nschemas = 90 if quick else 300
     ncases = 0
     for _ in range(nschemas):
         gs = G.GSchema(rng)
